@@ -30,12 +30,147 @@ def _norm(s):
     return re.sub(r"\s+", "", s)
 
 
+# ---- canonical form of a size expression: const locals inlined, sums and products flattened and sorted --------------
+_TOK = re.compile(r"\s*(\(size_t\)|\(uint\)|\(unsigned long long\)|[A-Za-z_][\w]*(?:(?:->|\.)[A-Za-z_]\w*|\[[^\]]*\]|\(\))*|\d+|[-+*/()])")
+
+
+def _tokens(e):
+    out, i = [], 0
+    e = e.strip()
+    while i < len(e):
+        m = _TOK.match(e, i)
+        if not m:
+            raise ValueError("cannot tokenise %r at %d" % (e, i))
+        out.append(m.group(1))
+        i = m.end()
+    return out
+
+
+def _parse(tokens, env):
+    """-> canonical tree: ('+', [terms]) / ('*', [factors]) / ('-', a, b) / ('/', a, b) / ('cast', T, x) / atom string"""
+    pos = [0]
+
+    def peek():
+        return tokens[pos[0]] if pos[0] < len(tokens) else None
+
+    def take():
+        pos[0] += 1
+        return tokens[pos[0] - 1]
+
+    def atom():
+        t = take()
+        if t in ("(size_t)", "(uint)", "(unsigned long long)"):
+            return ("cast", t, atom())
+        if t == "(":
+            x = expr()
+            if take() != ")":
+                raise ValueError("unbalanced")
+            return x
+        if t in env:
+            return env[t]
+        if re.match(r"^[A-Za-z_]", t) and "[" in t:
+            # canonicalise the index expressions of array accesses too
+            return re.sub(r"\[([^\]]*)\]", lambda m: "[" + _show(_canon_expr(m.group(1), env)) + "]", t)
+        return t
+
+    def term():
+        x = atom()
+        while peek() in ("*", "/"):
+            op = take()
+            y = atom()
+            x = _mk("*", [x, y]) if op == "*" else ("/", x, y)
+        return x
+
+    def expr():
+        x = term()
+        while peek() in ("+", "-"):
+            op = take()
+            y = term()
+            x = _mk("+", [x, y]) if op == "+" else ("-", x, y)
+        return x
+    r = expr()
+    if pos[0] != len(tokens):
+        raise ValueError("trailing tokens")
+    return r
+
+
+def _mk(op, xs):
+    flat = []
+    for x in xs:
+        if isinstance(x, tuple) and x[0] == op:
+            flat += x[1]
+        else:
+            flat.append(x)
+    return (op, sorted(flat, key=_show))
+
+
+def _show(t):
+    if isinstance(t, str):
+        return t
+    if t[0] in ("+", "*"):
+        return "(" + t[0].join(_show(x) for x in t[1]) + ")"
+    if t[0] in ("-", "/"):
+        return "(" + _show(t[1]) + t[0] + _show(t[2]) + ")"
+    return t[1] + _show(t[2])
+
+
+def _canon_expr(e, env):
+    return _parse(_tokens(e), env)
+
+
+def canon(e, src=None):
+    """canonical text of expression e; `const size_t x = ...;` / `size_t x = ...;` locals of src that e mentions are inlined
+    (recursively); falls back to the white-space-free text when the expression is outside the little grammar"""
+    if e is None or not isinstance(e, str):
+        return e
+    env = {}
+    if src is not None:
+        decls = dict((m.group(1), m.group(2)) for m in re.finditer(r"\bconst\s+size_t\s+(\w+)\s*=\s*([^;{}]*?);", src))
+        for _ in range(4):
+            for k, v in decls.items():
+                if k not in env:
+                    try:
+                        env[k] = _canon_expr(v, env)
+                    except ValueError:
+                        pass
+    try:
+        return _show(_canon_expr(e, env))
+    except ValueError:
+        return _norm(e)
+
+
+def _helper_growth(src, reserved):
+    """growth written through a helper: `reserved = F(&buf, reserved, <needed>);` where F (utils/Utils.h) is the doubling loop"""
+    out = []
+    try:
+        utils = _src("utils/Utils.h")
+    except OSError:
+        return out
+    for m in re.finditer(r"%s\s*=\s*(\w+)\s*\(\s*&(\w+)\s*,\s*%s\s*,\s*([^;]*?)\)\s*;" % (reserved, reserved), src):
+        f = m.group(1)
+        if f == "Reallocate":
+            continue
+        hm = re.search(r"inline\s+size_t\s+%s\s*\(\s*T\s*\*\*\s*(\w+)\s*,\s*size_t\s+(\w+)\s*,\s*size_t\s+(\w+)\s*\)\s*\{(.*?)\n\}" % f, utils, re.S)
+        if not hm:
+            continue
+        arr, res, need, body = hm.groups()
+        if _norm(body) == "while(%s>%s)%s=Reallocate(%s,%s);return%s;" % (need, res, res, arr, res, res):
+            out.append((m.start(), m.group(3)))
+    return out
+
+
 def _growth(src, reserved):
     """all growth loops on `reserved`: normalised compared expressions, in source order"""
-    out = []
+    found = []
     for m in re.finditer(r"while\s*\(\s*\(([^;{}]*?)\)\s*>\s*%s\s*\)\s*%s\s*=\s*Reallocate\(&(\w+),\s*%s\);" % (reserved, reserved, reserved), src):
-        out.append(_norm(m.group(1)))
-    return out
+        found.append((m.start(), m.group(1)))
+    found += _helper_growth(src, reserved)
+    return [canon(e, src) for _, e in sorted(found)]
+
+
+def _decl_raw(src, pat):
+    m = re.search(pat, src, re.S)
+    return m.group(1) if m else None
 
 
 def _decl(src, pat):
@@ -77,7 +212,7 @@ def source_checks():
         out[k + ".rpdict.loop"] = _rpdict_loop(s)
         g = _growth(s, "reservedStrings")
         out[k + ".text.check"] = g[0] if len(g) == 1 else g
-        out[k + ".text.required"] = _decl(s, r"size_t required =(.*?);")
+        out[k + ".text.required"] = canon(_decl_raw(s, r"size_t required =(.*?);"), s)
         out[k + ".text.init"] = _decl(s, r"size_t reservedStrings = (.*?);")
         out[k + ".tmp"] = _decl(s, r"uchar \*tmp = new uchar\[(.*?)\];")
         out[k + ".encodeSymbol"] = _body(s, r"uint StringDictionary%s::encodeSymbol\(uint symbol, uchar \*text,\s*uint \*offset\) \{" % kind)
@@ -107,7 +242,7 @@ def source_checks():
     sites = {}
     for f in sorted(os.listdir(REPO)):
         if f.endswith(".cpp"):
-            n = len(re.findall(r"=\s*Reallocate\(", _src(f)))
+            n = len(re.findall(r"\b(\w+)\s*=\s*\w+\s*\(\s*&\w+\s*,\s*\1\s*[,)]", _src(f)))      # reserved = Reallocate(&a, reserved) / = Helper(&a, reserved, need)
             if n:
                 sites[f] = n
     out["sites"] = sites
@@ -190,6 +325,12 @@ def compare(got=None):
     diffs = []
     for k, e in EXPECTED.items():
         g = got.get(k)
+        if k.endswith(".check") or k.endswith(".required"):
+            e = canon(e) if isinstance(e, str) else e
+            # a `required` local that was inlined into the check: compare the inlined forms
+            if k.endswith(".text.check") and isinstance(g, str) and k[:-6] + ".required" in EXPECTED and "required" not in g:
+                env_req = EXPECTED[k[:-6] + ".required"]
+                e = canon(EXPECTED[k].replace("required", "(" + env_req + ")"))
         if g != e:
             note = ""
             if isinstance(g, str) and g in REFUTED and not (k.startswith("hashhf") and g == "bytesStrings+4*(size_t)maxlength+2"):
